@@ -155,10 +155,13 @@ def main(tier: str) -> int:
         kind = s % 6
         if kind == 0:  # tournament
             fit = [rng.randint(0, 4) for _ in range(n)]
-            t = rng.randint(1, n)
+            if s % 12 == 6:
+                # distinct fitness values closer than 1e-12 (a nearly converged, min-max scaled population): still strict order
+                fit = [0.5 + 1e-13 * rng.randint(0, 3) + (0.25 if rng.random() < 0.3 else 0.0) for _ in range(n)]
+            t = rng.randint(1, n) if s % 12 != 6 else rng.choice([n, n, 2])
             numba_seed(s)
             win = int(tournament_selection(np.array(fit, dtype=np.float64), np.array(fit, dtype=np.float64), np.int64(t), np.int64(1))[0])
-            chk.count("tournament")
+            chk.count("tournament" if s % 12 != 6 else "tournament_near_ties")
             others = sum(1 for j in range(n) if j != win and fit[j] <= fit[win])
             if not (0 <= win < n and others >= t - 1 and (t < n or fit[win] == max(fit))):
                 chk.fail("tournament winner is one of the tour_size-1 strictly worst (or not the global best for tour_size = n)",
@@ -307,7 +310,7 @@ def main(tier: str) -> int:
     t_ops, t_ctx = [], []
     for o, (kind, inp, impl) in zip(outs, ctx):
         if kind == "tour_sample" and "ok" in o and o["ok"] is not None:
-            t_ops.append({"op": "tournament", "fitness": inp["fitness"], "sample": o["ok"]})
+            t_ops.append({"op": "tournament", "fitness": [C.float_key(float(v)) for v in inp["fitness"]], "sample": o["ok"]})
             t_ctx.append((inp, impl))
     if t_ops:
         try:
